@@ -143,6 +143,7 @@ func (x *Exec) schedule(s *State) {
 			return
 		}
 	}
+	// only quiescing threads left runnable: they resume
 	main := s.Threads[0]
 	if main.Done {
 		// helper goroutines blocked forever after main has finished: harness end
